@@ -37,10 +37,10 @@ ASSUMPTIONS = [
 
 
 def check(ctx):
-    persist.check_exc_cover(ctx)
-    persist.check_merge_done(ctx)
-    persist.check_write_all(ctx)
-    persist.check_write_invalidates(ctx)
+    ctx.run(persist.check_exc_cover)
+    ctx.run(persist.check_merge_done)
+    ctx.run(persist.check_write_all)
+    ctx.run(persist.check_write_invalidates)
     func = ctx.program.func(
         'valjean.cambronne.commands.run:RunCommand.execute')
     src = {}
